@@ -1077,6 +1077,9 @@ class Interp:
         if isinstance(a, (VInt, VBool)) and isinstance(b, (VInt, VBool)):
             x, y = self.as_int(a), self.as_int(b)
             return {ast.Lt: x < y, ast.LtE: x <= y, ast.Gt: x > y, ast.GtE: x >= y}[type(op)]
+        if isinstance(a, (VOpaque, VBuiltin)) or isinstance(b, (VOpaque, VBuiltin)):
+            # ordering involving a value of an unverified library (e.g. logger.level <= logging.DEBUG): either outcome
+            return self.fresh_bool('cmp_unknown')
         raise Unsupported('ordering of %r and %r' % (a, b), node)
 
     def contains(self, container, item, node):
@@ -1586,14 +1589,25 @@ class Interp:
         """A call that leaves the verified text.  One event; result constrained only by its declared type;
         may raise if so declared.  Frame assumption: it mutates nothing it was not handed; mutable
         arguments it *was* handed are havocked."""
+        # the event records the arguments as they are AT the call (lists by value)
+        frozen = []
         for a in args:
             if isinstance(a, VRef) and self.is_list(a):
-                self.havoc_ref(a)
+                try:
+                    frozen.append(self.seq_of(a, node))
+                except Unsupported:
+                    frozen.append(a)
+            else:
+                frozen.append(a)
+        if not decl.get('readonly'):
+            for a in args:
+                if isinstance(a, VRef) and self.is_list(a):
+                    self.havoc_ref(a)
         res = NONE
         rt = decl.get('returns')
         if rt is not None:
             res = self.ctx.make_symbolic(self, rt, 'ret_' + name.replace('.', '_').replace(':', '_'))
-        self.emit(name, args, kwargs, res)
+        self.emit(name, frozen, kwargs, res)
         self.st.trace[-1].recv = list(recv)
         if decl.get('raises'):
             b = self.fresh_bool('raises_' + name.replace('.', '_').replace(':', '_'))
@@ -1624,6 +1638,9 @@ class Interp:
                 self.assume(T.IsBytes(new.t))
             return
         if isinstance(c, HDict):
+            if isinstance(c.content, list) and hint == 'objmap':
+                self.st.heap[ref.loc] = HDict(VMap(self.fresh('hvmap', T.MapOO.sort), T.MapOO, 'obj', 'obj'))
+                return
             self.ctx.havoc_dict(self, ref)
             return
         raise Unsupported('havoc of %r' % (c,))
